@@ -17,7 +17,11 @@
 (* has to produce and the reader has to recover, not something given.          *)
 (* Loaded coordinates are integers in units of `res` micro-Angstrom.           *)
 EXTENDS Integers, Sequences, FiniteSets, TLC
-CONSTANTS GeomPool,    \* objects offered to Make: [cls, frames]; frame = Seq([el, ty, x, y, z]), x = [u, s];
+CONSTANTS GeomPool,    \* objects offered to Make: [cls, frames, world]; frame = Seq([el, ty, x, y, z]), x = [u, s];
+                       \* world = the object's length scale in Angstrom (1 or 1000): all integers of an object and of
+                       \* the text it is written to are micro-units of that scale, so that |x| up to 2e6 A (13 and
+                       \* more characters in %.6f) stays inside 32-bit integers; at scale 1000 the written precision
+                       \* the model sees is 1e-3 A (six decimals of the scale unit)
                        \* el = element symbol or "dummy" (no element, Z = 0); ty = atom type class "regular" | "dummy":
                        \* an atom of dummy TYPE may carry a real element (Du.H of a mol2 file) -- the text carries
                        \* the ELEMENT, the type is not part of the statement
@@ -67,6 +71,7 @@ ToMicroAInverted(U, t, d) ==
       e == 6 - d + PerAngstrom[U].p
   IN IF e >= 0 THEN t * n * Pow10(e) ELSE (t * n) \div Pow10(-e)
 
+World(g) == IF "world" \in DOMAIN g THEN g.world ELSE 1
 (* ---- writing: "to the written precision" = nearest multiple of 10^-d ------- *)
 Q(d) == Pow10(6 - d)                                     \* micro-Angstrom per unit of the last written place
 NoTie(c, d) == 2 * (10 * (c.u % Q(d)) + c.s) # 10 * Q(d)  \* pools avoid exact halves (binary floats have none)
@@ -76,19 +81,27 @@ RoundTo(c, d) == LET q  == Q(d)
                  IN IF 2 * v > 10 * q THEN t0 + 1 ELSE t0
 
 WrittenEl(a) == IF "DummyTypeHidesElement" \in Deviations /\ a.ty = "dummy" THEN "dummy" ELSE a.el
-AtomLine(a, d) ==
-  IF "ColumnsSwapped" \in Deviations
-    THEN [k |-> "atom", el |-> WrittenEl(a), x |-> RoundTo(a.x, d), y |-> RoundTo(a.z, d), z |-> RoundTo(a.y, d)]
-    ELSE [k |-> "atom", el |-> WrittenEl(a), x |-> RoundTo(a.x, d), y |-> RoundTo(a.y, d), z |-> RoundTo(a.z, d)]
+(* a value needs 13 or more characters in %.6f once it reaches 1e5 or -1e4 units of Angstrom: a writer that lets   *)
+(* such a value touch its neighbour produces a line no reader can split (deviation WideColumnsFuse, ensemble writer) *)
+WideK(t, d) == t >= Pow10(d + 2) \/ t <= -Pow10(d + 1)        \* t in 10^-d kiloangstrom: >= 1e5 A or <= -1e4 A
+AtomLine(a, d, w, ens) ==
+  LET x == RoundTo(a.x, d)
+      y == RoundTo(a.y, d)
+      z == RoundTo(a.z, d)
+  IN IF "WideColumnsFuse" \in Deviations /\ ens /\ w = 1000 /\ (WideK(y, d) \/ WideK(z, d))
+       THEN [k |-> "bad"]
+     ELSE IF "ColumnsSwapped" \in Deviations
+       THEN [k |-> "atom", el |-> WrittenEl(a), x |-> x, y |-> z, z |-> y]
+       ELSE [k |-> "atom", el |-> WrittenEl(a), x |-> x, y |-> y, z |-> z]
 Header(f)        == <<[k |-> "count", n |-> Len(f)], [k |-> "comment"]>>
-Body(f, d)       == [i \in 1..Len(f) |-> AtomLine(f[i], d)]
-FrameLines(f, d) == Header(f) \o Body(f, d)
-RECURSIVE RenderFrames(_, _, _)
-RenderFrames(fs, d, first) ==
+Body(f, d, w, ens)       == [i \in 1..Len(f) |-> AtomLine(f[i], d, w, ens)]
+FrameLines(f, d, w, ens) == Header(f) \o Body(f, d, w, ens)
+RECURSIVE RenderFrames(_, _, _, _, _)
+RenderFrames(fs, d, first, w, ens) ==
   IF fs = <<>> THEN <<>>
-  ELSE (IF "FrameBoundaryLost" \in Deviations /\ ~first THEN Body(Head(fs), d) ELSE FrameLines(Head(fs), d))
-       \o RenderFrames(Tail(fs), d, FALSE)
-Render(g, d) == RenderFrames(g.frames, d, TRUE)
+  ELSE (IF "FrameBoundaryLost" \in Deviations /\ ~first THEN Body(Head(fs), d, w, ens) ELSE FrameLines(Head(fs), d, w, ens))
+       \o RenderFrames(Tail(fs), d, FALSE, w, ens)
+Render(g, d) == RenderFrames(g.frames, d, TRUE, World(g), g.cls = Ens)
 
 (* what a frame written with d decimals denotes, in micro-Angstrom *)
 Denotes(f, d) == [i \in 1..Len(f) |-> <<f[i].el, RoundTo(f[i].x, d) * Q(d), RoundTo(f[i].y, d) * Q(d),
@@ -126,7 +139,7 @@ Conv(fs, U, d, res, inverted) ==
 
 (* ---- state machine ---------------------------------------------------------- *)
 NoObj  == [cls |-> "none", frames |-> <<>>]
-NoText == [fmt |-> "none", unit |-> "Angstrom", dec |-> 0, lines |-> <<>>, small |-> TRUE, dumps |-> 0]
+NoText == [fmt |-> "none", unit |-> "Angstrom", dec |-> 0, lines |-> <<>>, small |-> TRUE, dumps |-> 0, world |-> 1]
 
 Init == mem = NoObj /\ text = NoText /\ truth = <<>> /\ last = [act |-> "init"]
 
@@ -141,13 +154,20 @@ Make(g) == /\ text.fmt \in {"none", "xyz"}
            /\ MakeAny(g)
 
 (* mem.dumps_xyz() appended to the text / mem.dump_xyz(stream) *)
-Dump(route, d) ==
+DumpFrames(a, fs, d) ==
   /\ mem # NoObj /\ text.fmt \in {"none", "xyz"}
-  /\ text' = [fmt |-> "xyz", unit |-> "Angstrom", dec |-> d, lines |-> text.lines \o Render(mem, d),
-              small |-> text.small /\ mem \in SmallPool, dumps |-> text.dumps + 1]
-  /\ truth' = truth \o [j \in 1..Len(mem.frames) |-> Denotes(mem.frames[j], d)]
+  /\ text.fmt = "xyz" => text.world = World(mem)             \* one length scale per text
+  /\ text' = [fmt |-> "xyz", unit |-> "Angstrom", dec |-> d, lines |-> text.lines \o RenderFrames(fs, d, TRUE, World(mem), mem.cls = Ens /\ Len(fs) = Len(mem.frames)),
+              small |-> text.small /\ mem \in SmallPool, dumps |-> text.dumps + 1, world |-> World(mem)]
+  /\ truth' = truth \o [j \in 1..Len(fs) |-> Denotes(fs[j], d)]
   /\ mem' = NoObj
-  /\ last' = [act |-> "dump", route |-> route, out |-> "ok"]
+  /\ last' = a @@ [out |-> "ok"]
+Dump(route, d) == /\ mem # NoObj
+                  /\ DumpFrames([act |-> "dump", route |-> route], mem.frames, d)
+(* mem[i].dumps_xyz() / mem[i].dump_xyz(stream): the Conformer view number i of an ensemble writes its one frame *)
+DumpConformer(route, i, d) ==
+  /\ mem.cls = Ens /\ i \in 1..Len(mem.frames)
+  /\ DumpFrames([act |-> "dumpconf", route |-> route, i |-> i], <<mem.frames[i]>>, d)
 
 (* any text appears (a file of another program); tr = the frames it denotes in micro-Angstrom *)
 PutText(a, t, tr) ==
@@ -174,7 +194,7 @@ Foreign(fs, U, fmt, g) ==
      /\ fmt = "mol2" => \A j \in 1..Len(fs) : Len(fs[j]) > 0
      /\ LET ls == IF fmt = "xyz" THEN xyz(fs) ELSE m2 IN
         PutText([act |-> "foreign", fmt |-> fmt, unit |-> U, dec |-> d, lines |-> ls],
-                [fmt |-> fmt, unit |-> U, dec |-> d, lines |-> ls, small |-> FALSE, dumps |-> 0], tr)
+                [fmt |-> fmt, unit |-> U, dec |-> d, lines |-> ls, small |-> FALSE, dumps |-> 0, world |-> 1], tr)
 
 (* cls.<entry>_{xyz|mol2}(text, source_units = U), U naming the unit the file declares; the loaded       *)
 (* coordinates are reported in units of res micro-Angstrom                                              *)
@@ -183,7 +203,7 @@ Load(cls, entry, U, res) ==
       which == IF ens \/ entry \in AllEntries THEN "all" ELSE "first"
       p     == Parse(text, which)
       ret   == IF ens THEN "ensemble" ELSE IF entry \in AllEntries THEN "list" ELSE "object"
-      a     == [act |-> "load", fmt |-> text.fmt, cls |-> cls, entry |-> entry, units |-> U, res |-> res]
+      a     == [act |-> "load", fmt |-> text.fmt, cls |-> cls, entry |-> entry, units |-> U, res |-> res, world |-> text.world]
       inv   == "UnitFactorInverted" \in Deviations
       noconv == "EnsembleLoadsIgnoresUnits" \in Deviations /\ ens /\ entry = "loads"
       empty == "EmptyFrameUnreadable" \in Deviations /\ text.fmt = "xyz" /\ \E j \in 1..Len(p.frames) : p.frames[j] = <<>>
@@ -199,9 +219,12 @@ Load(cls, entry, U, res) ==
                              val |-> IF noconv THEN Conv(p.frames, "Angstrom", text.dec, res, FALSE)
                                                ELSE Conv(p.frames, U, text.dec, res, inv)]
 
+DumpLastConformer(r) == /\ mem # NoObj
+                        /\ DumpConformer(r, Len(mem.frames), Dec)
 Classes == GeomClasses \cup {Ens}
 Next == \/ \E g \in GeomPool : Make(g)
         \/ \E r \in {"dumps", "dump"} : Dump(r, Dec)
+        \/ \E r \in {"dumps", "dump"} : DumpLastConformer(r)
         \/ \E fs \in FilePool, U \in Units, fmt \in {"xyz", "mol2"}, g \in {0, 1, 3, 5} : Foreign(fs, U, fmt, g)
         \/ \E c \in Classes, e \in OneEntries \cup AllEntries, U \in Units : Load(c, e, U, Res(U))
 Spec == Init /\ [][Next]_vars
@@ -222,12 +245,14 @@ LoadFaithful ==
 (* physical distances are unchanged: a coordinate difference of the file, converted, is the difference    *)
 (* of the loaded coordinates (first two atoms of the first frame, x axis, exactly representable pools)    *)
 UnitsPreserveDistance ==
-  [][(last'.act = "load" /\ last'.out = "ok" /\ Len(truth[1]) >= 2) =>
+  [][(last'.act = "load" /\ last'.out = "ok" /\ Len(truth[1]) >= 2
+       /\ Abs(truth[1][1][2]) <= 1000000000 /\ Abs(truth[1][2][2]) <= 1000000000           \* 32-bit differences
+       /\ Abs(last'.val[1][1][2]) <= 1000000000 /\ Abs(last'.val[1][2][2]) <= 1000000000) =>
        last'.val[1][2][2] - last'.val[1][1][2] = (truth[1][2][2] - truth[1][1][2]) \div last'.res]_vars
 TypeOK == /\ mem = NoObj \/ mem.cls \in Classes
           /\ text.fmt \in {"none", "xyz", "mol2"} /\ text.unit \in KnownUnits
           /\ text.fmt # "none" => Len(truth) >= 1
-PoolOK == /\ \A g \in GeomPool : /\ g.cls \in Classes /\ Len(g.frames) >= 1
+PoolOK == /\ \A g \in GeomPool : /\ g.cls \in Classes /\ Len(g.frames) >= 1 /\ World(g) \in {1, 1000}
                                  /\ g.cls # Ens => Len(g.frames) = 1
                                  /\ \A j \in 1..Len(g.frames) : \A i \in 1..Len(g.frames[j]) :
                                        LET a == g.frames[j][i] IN /\ NoTie(a.x, Dec) /\ NoTie(a.y, Dec) /\ NoTie(a.z, Dec)
